@@ -38,6 +38,7 @@ type PathOut struct {
 	Trace    []string               `json:"trace"`
 	Branches []BranchRec            `json:"branches"`
 	Steps    int                    `json:"steps"`
+	GReads   []string               `json:"greads"`
 }
 
 type RunOut struct {
@@ -275,6 +276,7 @@ func runHarness(prog *ssa.Program, root *ssa.Package, modPkgs map[string]bool, r
 		for _, c := range e.pc {
 			po.PC = append(po.PC, c.ID)
 		}
+		po.GReads = sortedKeys(e.greads)
 		if po.Writes == nil {
 			po.Writes = []WriteRec{}
 		}
